@@ -5,6 +5,10 @@
  *                 S <0|1>        libast_set_silent(flag)              -> "S <flag> <returned>"
  *                 Y <statement>  as X, but one earlier write on stderr has FAILED in that child (fd 2 pointed at a full non-blocking
  *                                pipe for one fputs(), then fd 2 is restored; clearerr() is NOT called): history must not matter
+ *                 R <statement>  as X, after libast_dprintf / print_error / print_warning were refused for want of a program name
+ *                 W <statement> alone 0 <k> <kind>  as X with a write fault on the diagnostic stream: the k-th write fails with
+ *                                EINTR (kind 1) / EAGAIN (2) before any byte or is short (3); garbled=1 when an accepted piece is
+ *                                not a piece of the fault-free output of the same statement
  *                 A <statement>  as X, but executed by an atexit handler while the exit() of an earlier libast_fatal_error is running
  *                 X <statement> [<context> [<message size>]]  run the statement in a forked child with fd 2 captured;
  *                                context = alone | braced | then_true | then_false | loop2 (the statement as the unbraced then-arm
@@ -20,6 +24,7 @@
  *   count = how often the complete message appears; else = the else arm of the enclosing if was executed
  *   ferr  = (Y only) the failed write did set the stream's error indicator, i.e. the history was really provoked
  */
+#define _GNU_SOURCE
 #include <config.h>
 #include <libast.h>
 #include <stdio.h>
@@ -148,6 +153,43 @@ static char *make_big(size_t size) {          /* `size` bytes, no '%', no newlin
     return b;
 }
 
+/* write-fault schedule on the diagnostic stream: stderr is replaced (in the child) by a cookie stream whose k-th write fails with
+ * EINTR / EAGAIN before any byte, or accepts only half; every accepted piece goes to fd 2 behind a 0x1e separator */
+#define _GNU_SOURCE_FOR_COOKIE 1
+static int wf_k, wf_kind, wf_calls;              /* kind: 1 EINTR, 2 EAGAIN, 3 short */
+static ssize_t wf_write(void *cookie, const char *b, size_t len) {
+    (void) cookie;
+    wf_calls++;
+    if (wf_calls == wf_k) {
+        if (wf_kind == 1) { errno = EINTR; return 0; }
+        if (wf_kind == 2) { errno = EAGAIN; return 0; }
+        len = len / 2;
+        if (!len) { errno = EAGAIN; return 0; }
+    }
+    if (write(2, "\x1e", 1) < 0 || write(2, b, len) < 0) { }
+    return (ssize_t) len;
+}
+static void install_fault_stream(void) {
+    cookie_io_functions_t io = { NULL, wf_write, NULL, NULL };
+    FILE *f = fopencookie(NULL, "w", io);
+    if (f) { setvbuf(f, NULL, _IONBF, 0); stderr = f; }
+}
+/* "[<digits>]" time stamps differ between two runs of the same statement */
+static void normalise(char *t) {
+    char *r = t, *w = t;
+    while (*r) {
+        if (*r == '[' && r[1] >= '0' && r[1] <= '9') {
+            char *q = r + 1;
+            while (*q >= '0' && *q <= '9') q++;
+            if (*q == ']') { *w++ = '['; *w++ = 'T'; *w++ = ']'; r = q + 1; continue; }
+        }
+        *w++ = *r++;
+    }
+    *w = 0;
+}
+extern spif_charptr_t libast_program_name;
+static char clean_text[1 << 16]; static int clean_epoch = -1, clean_k = -1, epoch;
+
 /* history 2: the statement runs inside a client atexit handler while the exit() of an earlier fatal error is in progress */
 static int ax_k, ax_fn, ax_fd;
 static void ax_handler(void) {
@@ -157,8 +199,8 @@ static void ax_handler(void) {
     if (write(ax_fd, res, sizeof(res)) < 0) { }
 }
 
-static void run_cell(int k, int hist, int ctx, size_t size) {
-    int ep[2], rp[2], status = 0, res[2] = { -1, -1 }, got = 0, text, count = 0;
+static void run_cell(int k, int hist, int ctx, size_t size, int fk, int fkind, int quiet) {
+    int ep[2], rp[2], status = 0, res[2] = { -1, -1 }, got = 0, text, count = 0, garbled = 0;
     static char buf[1 << 18], tmp[1 << 16]; size_t n = 0, total = 0; ssize_t c; pid_t pid;
     const char *cls, *ctl; char sig[32]; char *bigarg = make_big(size);
     if (pipe(ep) || pipe(rp)) { perror("pipe"); exit(2); }
@@ -173,6 +215,13 @@ static void run_cell(int k, int hist, int ctx, size_t size) {
         setvbuf(stderr, NULL, _IONBF, 0);
         alarm(10);
         if (hist == 1) shared[1] = provoke_failed_write(ep[1]);
+        if (hist == 3) {                      /* printing calls REFUSED for want of a program name (level 0: nothing is logged) */
+            spif_charptr_t keep = libast_program_name; unsigned lv = libast_debug_level;
+            libast_program_name = (spif_charptr_t) NULL; libast_debug_level = 0;
+            libast_dprintf("refused %d\n", 1); libast_print_error("refused %d\n", 2); libast_print_warning("refused %d\n", 3);
+            libast_program_name = keep; libast_debug_level = lv;
+        }
+        if (fk) { wf_k = fk; wf_kind = fkind; wf_calls = 0; install_fault_stream(); }
         close(ep[1]);
         big = bigarg;
         outer = (ctx != 3);
@@ -203,6 +252,25 @@ static void run_cell(int k, int hist, int ctx, size_t size) {
     got = (read(rp[0], res, sizeof(res)) == (ssize_t) sizeof(res));
     close(ep[0]); close(rp[0]);
     waitpid(pid, &status, 0);
+    if (!fk && hist == 0 && ctx == 0 && size == 0 && n < sizeof(clean_text)) {      /* fault-free reference of this statement here */
+        memcpy(clean_text, buf, n + 1); normalise(clean_text); clean_epoch = epoch; clean_k = k;
+    }
+    if (quiet) { free(bigarg); return; }
+    if (fk) {                                 /* every accepted piece must be a piece of the fault-free output */
+        char *p = buf, *q; size_t w = 0;
+        while (p < buf + n) {
+            if (*p != 0x1e) { garbled = 1; break; }            /* bytes that did not come through the stream (a crash report) */
+            q = memchr(p + 1, 0x1e, (size_t) (buf + n - p - 1));
+            if (!q) q = buf + n;
+            { char piece[4096]; size_t l = (size_t) (q - p - 1);
+              if (l >= sizeof(piece)) l = sizeof(piece) - 1;
+              memcpy(piece, p + 1, l); piece[l] = 0; normalise(piece);
+              if (piece[0] && !strstr(clean_text, piece)) garbled = 1; }
+            memmove(buf + w, p + 1, (size_t) (q - p - 1)); w += (size_t) (q - p - 1);
+            p = q;
+        }
+        if (!garbled) { n = w; buf[n] = 0; total = n; }
+    }
     if (total == 0) cls = "none";
     else if (strstr(buf, "FATAL:")) cls = "fatal";
     else if (strstr(buf, "Warning:")) cls = "warning";
@@ -222,9 +290,10 @@ static void run_cell(int k, int hist, int ctx, size_t size) {
         while ((q = strstr(q, msg)) != NULL) { count++; q += need; }
         free(msg);
     }
-    printf("%c %s %s %lu out=%s eval=%d ctl=%s val=%d status=%d bytes=%lu text=%d count=%d else=%d ferr=%d\n", hist == 2 ? 'A' : (hist ? 'Y' : 'X'), T[k].name,
+    printf("%c %s %s %lu out=%s eval=%d ctl=%s val=%d status=%d bytes=%lu text=%d count=%d else=%d ferr=%d garbled=%d fault=%d/%d\n",
+           fk ? 'W' : (hist == 3 ? 'R' : (hist == 2 ? 'A' : (hist ? 'Y' : 'X'))), T[k].name,
            CTX[ctx], (unsigned long) size, cls, counter, ctl, got ? res[0] : -1, WIFEXITED(status) ? WEXITSTATUS(status) : -1,
-           (unsigned long) total, text, count, ELSE_TAKEN, shared[1]);
+           (unsigned long) total, text, count, ELSE_TAKEN, shared[1], garbled, fk, fkind);
     free(bigarg);
 }
 
@@ -243,17 +312,22 @@ int main(int argc, char **argv) {
     printf("BUILD DEBUG=%d\n", (int) DEBUG);
     for (line = strtok_r(text, "\n", &save); line; line = strtok_r(NULL, "\n", &save)) {
         int k;
+        if (line[0] == 'L' || line[0] == 'S') epoch++;
         if (line[0] == 'L') { libast_debug_level = (unsigned) atoi(line + 2); printf("L %u\n", libast_debug_level); }
         else if (line[0] == 'S') { int b = atoi(line + 2); printf("S %d %d\n", b, (int) libast_set_silent(b ? TRUE : FALSE)); }
-        else if (line[0] == 'X' || line[0] == 'Y' || line[0] == 'A') {
-            char nm[64], cx[32]; unsigned long size = 0; int ctx;
+        else if (line[0] == 'X' || line[0] == 'Y' || line[0] == 'A' || line[0] == 'R' || line[0] == 'W') {
+            char nm[64], cx[32]; unsigned long size = 0; int ctx, fk = 0, fkind = 0;
             cx[0] = 0;
-            if (sscanf(line + 2, "%63s %31s %lu", nm, cx, &size) < 1) continue;
+            if (sscanf(line + 2, "%63s %31s %lu %d %d", nm, cx, &size, &fk, &fkind) < 1) continue;
             if (!cx[0]) strcpy(cx, "alone");
             for (k = 0; T[k].name && strcmp(T[k].name, nm); k++) ;
             for (ctx = 0; CTX[ctx] && strcmp(CTX[ctx], cx); ctx++) ;
             if (!T[k].name || !CTX[ctx]) { printf("X %s unknown\n", line + 2); continue; }
-            run_cell(k, line[0] == 'A' ? 2 : (line[0] == 'Y'), ctx, (size_t) size);
+            if (line[0] == 'W') {
+                if (clean_epoch != epoch || clean_k != k) run_cell(k, 0, 0, 0, 0, 0, 1);      /* the fault-free reference first */
+                run_cell(k, 0, ctx, 0, fk, fkind, 0);
+            } else
+                run_cell(k, line[0] == 'R' ? 3 : (line[0] == 'A' ? 2 : (line[0] == 'Y')), ctx, (size_t) size, 0, 0, 0);
         }
     }
     free(text);
